@@ -124,8 +124,11 @@ type Backend struct {
 }
 type Ing struct {
 	Ns, Name string
-	Default  *Backend    `json:",omitempty"`
-	Rules    [][]Backend `json:",omitempty"` // rules -> paths
+	// HostStyle: which hosts, paths and path types the rules are written with (render.go: ingHosts, ingPaths) - none of
+	// them decides which workloads the Ingress reaches
+	HostStyle int         `json:",omitempty"`
+	Default   *Backend    `json:",omitempty"`
+	Rules     [][]Backend `json:",omitempty"` // rules -> paths
 }
 type Route struct {
 	Ns, Name string
